@@ -2,6 +2,7 @@ import BddVerif.Props.C07
 import BddVerif.Lemmas.C02HistorySubst
 import BddVerif.Lemmas.AlgoEq2RenDriver
 import BddVerif.Lemmas.SubstituteCanonical
+import BddVerif.Lemmas.ExactWalkC07
 #print axioms B.Props.C07.substitute_spec
 #print axioms B.Props.C07.substitute_safe_canonical
 #print axioms B.C02H.substitute_canonical
@@ -9,3 +10,5 @@ import BddVerif.Lemmas.SubstituteCanonical
 #print axioms B.AlgoEq2Ren.Bdd_substitute_spec
 #print axioms B.AlgoEq2Ren.substitute_absent
 #print axioms B.Ren.Subst.substitute_eq_canon
+#print axioms B.ExactWalk.compositionExact_sound
+#print axioms B.ExactWalk.compositionExact_sound_wfoB
